@@ -1004,3 +1004,64 @@ def every_occurrence_has_one_cell_in_A_or_B(K, which):
     K.ensure("A holds the occurrences that are elements of the vector", A == sorted(want_A))
     K.ensure("B holds the others, at the column of the element they are the lag of", B == sorted(want_B))
     K.ensure("no occurrence is in both", not (set((r, d) for r, _, d in A) & set((r, d) for r, _, d in B)))
+
+
+# ------------------------------------------------------------------------------ the vector of the unsolved system and its dynamic identities (bounded stand-in, NOT a proof)
+@bounded("C02", bound="sets of occurrences of two transition variables with shifts in -3..2 (the current date plus up to 2 other shifts each; every set for the first variable, every second for the other) in transition equations, with every single occurrence (shift <= 0) of either variable in a measurement equation")
+def system_vector_and_dynamic_identities_native(B):
+    """The columns of A/B/G: for every transition variable the shifts min(deepest lag, -1)+1 .. largest lead, each once
+    (so that every occurrence is an element of the vector or the one-period lag of an element); an occurrence x[s] in a
+    measurement equation is itself an element (the vector is extended by pretending x[s-1] occurs); the dynamic identities
+    tie element (q, s) of the vector at t+1 to element (q, s+1) at t, one row per element that is not the largest lead of
+    its variable.  Sets of tokens with symbolic fields are outside the engine; this enumerates them."""
+    import itertools
+    from types import SimpleNamespace
+    from irispie.fords import descriptors as DSC
+    from irispie.incidences.main import Token, sort_tokens
+    from irispie.equations import EquationKind
+    from irispie.quantities import QuantityKind
+    shifts = range(-3, 3)
+    # precondition taken from the call site: SystemVectors adds the zero-shift token of EVERY quantity to the tokens of the equations
+    choices = [c for r in (1, 2, 3) for c in itertools.combinations(shifts, r) if 0 in c]
+    kinds = {0: QuantityKind.TRANSITION_VARIABLE, 1: QuantityKind.TRANSITION_VARIABLE, 2: QuantityKind.MEASUREMENT_VARIABLE}
+    for c0 in choices:
+        for c1 in choices[::2]:
+            trans = {Token(0, s) for s in c0} | {Token(1, s) for s in c1}
+            for meas in [None] + [Token(q, s) for q in (0, 1) for s in (-2, -1, 0)]:
+                B.case()
+                eqs = [SimpleNamespace(kind=EquationKind.TRANSITION_EQUATION, incidence=tuple(trans))]
+                if meas is not None:
+                    eqs.append(SimpleNamespace(kind=EquationKind.MEASUREMENT_EQUATION, incidence=(meas, Token(2, 0))))
+                adjusted = DSC._adjust_for_measurement_equations(set(trans), eqs, kinds)
+                want_adj = set(trans) | ({Token(meas.qid, meas.shift - 1)} if meas is not None else set())
+                if set(adjusted) != want_adj:
+                    B.fail("the adjustment for measurement equations does not add exactly x[s-1] for an occurrence x[s]", {"transition": sorted(trans), "measurement": meas, "got": sorted(adjusted)})
+                    return
+                vec = list(sort_tokens(DSC._create_system_transition_vector(adjusted)))
+                want = []
+                for q in (0, 1):
+                    ss = [t.shift for t in want_adj if t.qid == q]
+                    want += [Token(q, s) for s in range(min(min(ss), -1) + 1, max(ss) + 1)]
+                if sorted(vec) != sorted(want) or len(set(vec)) != len(vec):
+                    B.fail("the system vector is not 'every shift from min(deepest lag, -1)+1 to the largest lead, once'", {"occurrences": sorted(want_adj), "got": vec, "want": sorted(want)})
+                    return
+                if vec != sorted(vec, key=lambda t: (-t.shift, t.qid)):
+                    B.fail("the system vector is not ordered by descending shift, then variable", {"got": vec})
+                    return
+                for t in list(trans) + ([meas] if meas is not None else []):
+                    if not (t in vec or t.shifted(+1) in vec):
+                        B.fail("an occurrence is neither an element of the vector nor the lag of one (no column in A or B)", {"occurrence": t, "vector": vec})
+                        return
+                if meas is not None and meas not in vec:
+                    B.fail("an occurrence in a measurement equation is not an element of the vector (no column in G)", {"occurrence": meas, "vector": vec})
+                    return
+                dA, dB = DSC._create_dynid_matrices(vec)
+                mx = {q: max(t.shift for t in vec if t.qid == q) for q in {t.qid for t in vec}}
+                pairs = [(i, vec.index(t.shifted(+1))) for i, t in enumerate(vec) if t.shift != mx[t.qid]]
+                wA, wB = np.zeros((len(pairs), len(vec))), np.zeros((len(pairs), len(vec)))
+                for r, (i, j) in enumerate(pairs):
+                    wA[r, i], wB[r, j] = 1, -1
+                if dA.shape != wA.shape or not (np.array_equal(dA, wA) and np.array_equal(dB, wB)):
+                    B.fail("the dynamic identities do not tie (q, s) at t+1 to (q, s+1) at t, one row per element below the largest lead", {"vector": vec})
+                    return
+    return {"exhaustive_within_bound": False}
